@@ -499,6 +499,132 @@ def cursor_reuse_stream(tier, rng):
                         'cursor_reuse_samples': [' ; '.join(s['sql'] for s in c) for c in cases[:3]]}
 
 
+# ---- (fix-I) string constants holding comment / quote look-alikes in un-aliased targets: "named by the exact source text"
+STR_PIECES = [';', ';', '; ', '/*', '*/', '/* c */', '--', '#', ',', '(', ')', ' ', 'a', 'b', 'x y', 'AS n', 'FROM', '%', '\\', '\t']
+STR_COLS = [('tag', T_STR), ('qty', T_INT), ('s', T_STR)]
+
+
+def gen_string_constant(rng):
+    """(literal text, kind histogram key): a string constant whose content is plain data that looks like BQL syntax"""
+    body = ''.join(rng.choice(STR_PIECES) for _ in range(rng.randint(1, 4)))
+    q = rng.choice(["'", "'", '"'])
+    other = '"' if q == "'" else "'"
+    if rng.random() < 0.3:
+        k = rng.randint(0, len(body))
+        body = body[:k] + other + body[k:]            # a quote of the other kind is an ordinary character
+    if rng.random() < 0.1:
+        k = rng.randint(0, len(body))
+        body = body[:k] + '\n' + body[k:]
+    return q + body + q
+
+
+def gen_string_case(rng):
+    """Same record shape as gen_case: 1-4 targets, each built around 1-2 'difficult' string constants, placed at the end of the
+    target, at its start, in the middle, inside function arguments and inside IN lists; random spacing / comments / redundant
+    parentheses around; some aliased; the statement may end with an end-of-line comment."""
+    rows = [(rng.choice(['a;b', 'c', 'x; y', '/*', None]), rng.choice([0, 1, 2, None]), rng.choice(['', ';', 'b'])) for _ in range(rng.choice([0, 1, 3]))]
+    targets = []
+    shapes = {}
+    for i in range(rng.randint(1, 4)):
+        s1, s2 = gen_string_constant(rng), gen_string_constant(rng)
+        col = rng.choice(['tag', 's'])
+        sp = lambda: rng.choice(['', ' ', ' ', '  ', ' /* x */ ', '\n'])      # noqa: E731
+        sp1 = lambda: rng.choice([' ', ' ', '  ', ' /* x */ ', '\n'])         # noqa: E731
+        shape = rng.choice(['const', 'cmp-end', 'cmp-start', 'func', 'func2', 'in', 'in-end', 'middle', 'nested', 'two'])
+        shapes[shape] = 1
+        if shape == 'const':
+            inner = s1
+        elif shape == 'cmp-end':
+            inner = col + sp() + rng.choice(['=', '!=', '<', '>=']) + sp() + s1
+        elif shape == 'cmp-start':
+            inner = s1 + sp() + rng.choice(['=', '!=', '<']) + sp() + col
+        elif shape == 'func':
+            inner = rng.choice(['upper', 'lower', 'length', 'str']) + '(' + sp() + s1 + sp() + ')'
+        elif shape == 'func2':
+            inner = 'coalesce(' + sp() + col + sp() + ',' + sp() + s1 + sp() + ')'
+        elif shape == 'in':
+            inner = col + sp1() + 'IN' + sp1() + '(' + s1 + sp() + ',' + sp() + s2 + ')'
+        elif shape == 'in-end':
+            inner = s1 + sp1() + 'IN' + sp1() + '(' + col + ',' + sp() + s2 + sp() + ')'
+        elif shape == 'middle':
+            inner = 'length(' + s1 + ')' + sp() + '+' + sp() + 'qty'
+        elif shape == 'nested':
+            inner = 'length(' + sp() + 'upper(' + s1 + ')' + sp() + ')' + sp() + rng.choice(['+', '*', '-']) + sp() + 'length(' + s2 + ')'
+        else:
+            inner = s1 + sp() + rng.choice(['=', '<', '!=']) + sp() + s2
+        wraps = rng.choice([0, 0, 0, 1, 2])
+        fmt = '{}'
+        for _ in range(wraps):
+            fmt = '(' + rng.choice(['', ' ']) + fmt + rng.choice(['', ' ']) + ')'
+        alias = f'n{i}' if rng.random() < 0.2 else None
+        lead, trail = rng.choice(WS), rng.choice(WS + ['', ''])
+        tail = (f' AS {alias}' if alias else '') + trail
+        targets.append({'sql': lead + fmt.format(inner) + tail, 'lead': lead, 'fmt': fmt, 'tail': tail, 'alias': alias, 'col': None,
+                        'inner': inner, 'expected': alias or inner, 'expr_sql': inner, 'shape': shape})
+    extra = rng.choice(['', '', '', ' ORDER BY qty', ' ; done', ';', ' WHERE tag != \'x;\'', '\n; c'])
+    return {'cols': STR_COLS, 'rows': rows, 'targets': targets, 'extra': extra, 'wrap': False}
+
+
+def judge(c, io, want):
+    """None, or what is wrong with the implementation's answer `io` for case `c` given the model's names `want` (the
+    judgement of the main stream)."""
+    if 'error' in io:
+        return 'statement failed: ' + io['error']
+    if io['names'] != want:
+        return f'description names {io["names"]} differ from the naming rule {want}'
+    if want != [t['expected'] for t in c['targets']]:
+        return f'model names {want} differ from harness expectation {[t["expected"] for t in c["targets"]]}'
+    if io['widths'] not in ([], [len(c['targets'])]):
+        return f'row widths {io["widths"]} differ from the {len(c["targets"])} described columns'
+    if not all(b is True for b in io['back']):
+        return f'a column name does not parse back to its target expression: {io["back"]}'
+    return None
+
+
+def string_constant_stream(tier, rng):
+    n = 400 if tier == 'quick' else 6000
+    cases = [gen_string_case(rng) for _ in range(n)]
+    ios = core.pmap(run_impl, cases)
+    flat = [(ci, ti) for ci, c in enumerate(cases) for ti in range(len(c['targets']))]
+    models = core.coq_eval('c07s', ['Model.Naming'], [model_expr(cases[ci]['targets'][ti]) for ci, ti in flat], shard=400)
+    mnames = {}
+    for (ci, ti), m in zip(flat, models):
+        mnames.setdefault(ci, []).append(''.join(chr(x) for x in m))
+    violations = []
+    hist = {'shape': {}, 'aliased': 0, 'unaliased': 0, 'constants_with': {}, 'statement_tail': {}, 'errors': 0}
+    marks = [';', '/*', '*/', '--', '#', '"', "'", '\n', ',', '(', ')']
+    for ci, (c, io) in enumerate(zip(cases, ios)):
+        for t in c['targets']:
+            hist['shape'][t['shape']] = hist['shape'].get(t['shape'], 0) + 1
+            hist['aliased' if t['alias'] else 'unaliased'] += 1
+            body = t['inner']
+            for mk in marks:
+                if mk in body:
+                    hist['constants_with'][mk] = hist['constants_with'].get(mk, 0) + 1
+        hist['statement_tail'][c['extra']] = hist['statement_tail'].get(c['extra'], 0) + 1
+        hist['errors'] += 'error' in io
+        bad = judge(c, io, mnames[ci])
+        if bad and len(violations) < 3:
+            small = shrink_string_case(c)
+            violations.append(core.Violation('naming', f'{statement(small)!r}: {judge(small, run_impl(small), [t["expected"] for t in small["targets"]])}',
+                                             {'kind': 'string-constants', 'sql': statement(small), 'impl': run_impl(small), 'case': small},
+                                             signature='naming:' + statement(small)))
+    return violations, {'string_constant_cases': len(cases), 'string_constant_histograms': hist}
+
+
+def shrink_string_case(c):
+    """one failing target, no statement tail, when that still fails (names / parse-back only; the model's name is the slice)"""
+    def fails(x):
+        return judge(x, run_impl(x), [t['expected'] for t in x['targets']]) is not None
+    for t in c['targets']:
+        for extra in ('', c['extra']):
+            for rows in ([], c['rows']):
+                x = dict(c, targets=[t], extra=extra, rows=rows)
+                if fails(x):
+                    return x
+    return c
+
+
 def run(tier, rng):
     n = 1500 if tier == 'quick' else 20000
     cases = [gen_case(rng) for _ in range(n)]
@@ -579,6 +705,14 @@ def run(tier, rng):
     }
     cov.update(rcov)
     cov['empty_name_probe'] = ecov
+    sviol, scov = string_constant_stream(tier, rng)      # (fix-I) drawn last: the streams above see the random numbers they saw before
+    violations.extend(sviol)
+    cov.update(scov)
+    cov['evaluations'] += scov['string_constant_cases']
+    cov['rule'] += ('; string constants: 1-4 targets built around string constants whose content looks like BQL syntax (; /* */ -- # '
+                    'quotes of the other kind, commas, parentheses, keywords, newlines) at the end / start / middle of an un-aliased '
+                    'target, inside function arguments and IN lists, with random spacing, comments, redundant parentheses and '
+                    'end-of-line comments after the statement: names vs Model/Naming.v on the exact slice, parse(name) = the target')
     cov['rule'] += ('; cursor re-use: sequences of 2-7 statements on ONE cursor of a Beancount connection (statements refused after '
                     'their FROM clause was compiled - unknown column / function / ORDER BY index over every table, subqueries, FROM '
                     'expressions - and PRINT, wildcard statements with and without FROM, plain statements): description names and '
@@ -598,6 +732,9 @@ def replay(rec):
             os.unlink(f.name)
     if rec.get('kind') == 'empty-name':
         return not empty_name_probe([rec['sql']])[1]
+    if rec.get('kind') == 'string-constants':
+        c = rec['case']
+        return judge(c, run_impl(c), [t['expected'] for t in c['targets']]) is None
     if 'sql' not in rec:
         return not beancount_wildcards()[1]
     c = rec['case']
